@@ -290,7 +290,7 @@ func c11Run(r *vx.Run, alpha string, atoms []c11Atom, seq []int, cfg c11Cfg) str
 		f *histogram.FloatHistogram
 	}
 	var objs []passed
-	callerChanged := false
+	callerChanged, negChanged := false, false
 	for i, ai := range seq {
 		at := atoms[ai]
 		var h *histogram.Histogram
@@ -333,9 +333,11 @@ func c11Run(r *vx.Run, alpha string, atoms []c11Atom, seq []int, cfg c11Cfg) str
 		if o.f != nil {
 			now = histmodel.FromFloat(o.f)
 			layoutChanged = len(o.f.PositiveBuckets) != len(atoms[o.a].F.PositiveBuckets) || len(o.f.NegativeBuckets) != len(atoms[o.a].F.NegativeBuckets)
+			negChanged = negChanged || len(o.f.NegativeBuckets) != len(atoms[o.a].F.NegativeBuckets)
 		} else {
 			now = histmodel.FromInt(o.h)
 			layoutChanged = len(o.h.PositiveBuckets) != len(atoms[o.a].I.PositiveBuckets) || len(o.h.NegativeBuckets) != len(atoms[o.a].I.NegativeBuckets)
+			negChanged = negChanged || len(o.h.NegativeBuckets) != len(atoms[o.a].I.NegativeBuckets)
 		}
 		callerChanged = callerChanged || layoutChanged
 		want := atoms[o.a].M
@@ -374,6 +376,9 @@ func c11Run(r *vx.Run, alpha string, atoms []c11Atom, seq []int, cfg c11Cfg) str
 	ev := string(ser.events)
 	if callerChanged {
 		ev += "+B"
+	}
+	if negChanged {
+		ev += "n"
 	}
 	return ev
 }
@@ -479,7 +484,7 @@ func TestVerifC11a(t *testing.T) {
 	defer r.Finish()
 	full := histalpha.Atoms(histalpha.FullShapes())
 	small := histalpha.Atoms(histalpha.SmallShapes())
-	alphas := map[string][]c11Atom{"full": full, "small": small}
+	alphas := map[string][]c11Atom{"full": full, "small": small, "one": histalpha.OnePerShape(histalpha.FullShapes())}
 
 	if r.Replay != "" {
 		var c c11Case
@@ -505,7 +510,7 @@ func TestVerifC11a(t *testing.T) {
 	}
 	c11SelfTest(t, full)
 
-	var evals, seqs, nRecode, nCut, nBack, nNontrivial atomic.Int64
+	var evals, seqs, nRecode, nCut, nBack, nBackNeg, nNontrivial atomic.Int64
 	var outcomes sync.Map
 	type phase struct {
 		alpha          string
@@ -520,21 +525,22 @@ func TestVerifC11a(t *testing.T) {
 			// every configuration on everything up to length 2 and on the small alphabet up to length 3
 			{"full", 1, 2, func(n int) []c11Cfg { return c11Cfgs(n, allST, true, both) }},
 			{"small", 3, 3, func(n int) []c11Cfg { return c11Cfgs(n, allST, true, both) }},
-			// length 3 over the full alphabet under the plain configuration (thorough: 16 configurations)
-			{"full", 3, 3, func(n int) []c11Cfg {
-				return []c11Cfg{{ST: 0, Mask: 0}}
+			// length 3 over one atom per shape (int when integral, else float), plain and one
+			// start-timestamp configuration (thorough: all 122 atoms under 10 configurations)
+			{"one", 3, 3, func(n int) []c11Cfg {
+				return []c11Cfg{{ST: 0, Mask: 0}, {ST: 2, Mask: 0, Reopen: true}}
 			}},
 		}
 	} else {
 		phases = []phase{
 			{"full", 1, 2, func(n int) []c11Cfg { return c11Cfgs(n, allST, true, both) }},
 			{"small", 3, 3, func(n int) []c11Cfg { return c11Cfgs(n, allST, true, both) }},
-			// length 3 over the full alphabet: every cut mask without re-opening, plus re-opening
-			// on uncut chunks, for the plain and one start-timestamp encoding
+			// length 3 over the full alphabet: plain encodings under every cut mask, and one
+			// start-timestamp encoding with the appender re-opened before every append
 			{"full", 3, 3, func(n int) []c11Cfg {
-				return append(c11Cfgs(n, []int{0, 2}, true, []bool{false}), c11Cfg{ST: 0, Reopen: true}, c11Cfg{ST: 2, Reopen: true})
+				return append(c11Cfgs(n, []int{0}, true, []bool{false}), c11Cfg{ST: 2, Reopen: true})
 			}},
-			{"small", 4, 4, func(n int) []c11Cfg { return c11Cfgs(n, []int{0, 2}, true, both) }},
+			{"small", 4, 4, func(n int) []c11Cfg { return c11Cfgs(n, []int{0, 2}, true, []bool{false}) }},
 		}
 	}
 	var phaseDesc []string
@@ -571,6 +577,9 @@ func TestVerifC11a(t *testing.T) {
 				if strings.Contains(ev, "B") {
 					nBack.Add(1)
 				}
+				if strings.Contains(ev, "Bn") {
+					nBackNeg.Add(1)
+				}
 			}
 			if nontrivial {
 				nNontrivial.Add(1)
@@ -599,12 +608,13 @@ func TestVerifC11a(t *testing.T) {
 	r.Count("cases_with_recode", int(nRecode.Load()))
 	r.Count("cases_with_appender_cut", int(nCut.Load()))
 	r.Count("cases_with_backward_insert_into_caller_histogram", int(nBack.Load()))
+	r.Count("cases_with_backward_insert_on_negative_side", int(nBackNeg.Load()))
 	r.Count("sequences_chunkenc", int(seqs.Load()))
 	r.Set("depth_completed_chunkenc", depthDone)
 	r.Set("phases_chunkenc", phaseDesc)
-	r.Set("rule", "part (a): every sequence of atoms (histmodel shape x int|float; full = core shapes + 3 gauge variants, small = 13 colliding shapes) up to the stated length, each run under every listed configuration (plain or start-timestamp chunk encoding with 3 ST patterns, forced chunk cut before any subset of samples, appender re-opened before every append, repeated atoms re-appending the same object) through AppendHistogram/AppendFloatHistogram with the head's new-chunk/recode/prevApp protocol, read back in 5 passes (fresh iterators and objects kept until the end; one recycled iterator and recycled objects with integer samples read both as int and as float; chunks rebuilt from a copy of their bytes and read as float; Seek to every timestamp; append-only re-encoding of every chunk) and compared with histmodel at every timestamp; the caller's objects are re-decoded after every append. distinct_nontrivial counts the enumerated sequences (distinct by construction; the two alphabets are disjoint name spaces) in which an appender recoded the chunk, cut a chunk itself, or inserted empty buckets into the caller's histogram. Parts (b)-(d): see rule_head.")
+	r.Set("rule", "part (a): every sequence of atoms (histmodel shape x int|float; full = core shapes + 8 derived gauge, padded and grown variants, one = the same shapes with one representation each, small = 14 colliding shapes) up to the stated length, each run under every listed configuration (plain or start-timestamp chunk encoding with 3 ST patterns, forced chunk cut before any subset of samples, appender re-opened before every append, repeated atoms re-appending the same object) through AppendHistogram/AppendFloatHistogram with the head's new-chunk/recode/prevApp protocol, read back in 5 passes (fresh iterators and objects kept until the end; one recycled iterator and recycled objects with integer samples read both as int and as float; chunks rebuilt from a copy of their bytes and read as float; Seek to every timestamp; append-only re-encoding of every chunk) and compared with histmodel at every timestamp; the caller's objects are re-decoded after every append. distinct_nontrivial counts the enumerated sequences (distinct by construction; the two alphabets are disjoint name spaces) in which an appender recoded the chunk, cut a chunk itself, or inserted empty buckets into the caller's histogram. Parts (b)-(d): see rule_head.")
 	r.Assume("histmodel (decode + semantic equality) is the trusted reference; shapes are valid histograms by construction (Validate() checked in the self-test)")
-	if r.Get("cases_with_recode") == 0 || r.Get("cases_with_appender_cut") == 0 || r.Get("cases_with_backward_insert_into_caller_histogram") == 0 {
+	if !r.Expired() && (r.Get("cases_with_recode") == 0 || r.Get("cases_with_appender_cut") == 0 || r.Get("cases_with_backward_insert_into_caller_histogram") == 0 || r.Get("cases_with_backward_insert_on_negative_side") == 0) {
 		t.Fatalf("vacuous: recode=%d appender cuts=%d backward inserts=%d", r.Get("cases_with_recode"), r.Get("cases_with_appender_cut"), r.Get("cases_with_backward_insert_into_caller_histogram"))
 	}
 }
